@@ -4,6 +4,7 @@
 (*  "inst": [dm, hz, n, horizon, tags: <<[obj, idx]>>, dist, flows]        *)
 (*          dm = distances of the original objects (objects are 1..Len(dm)),*)
 (*          hz = requested horizon; the rest is what the instance reports  *)
+(*  "big":  [nexp, n, hz, horizon, dist, flows]  many distinct objects      *)
 (*  "swap": [pairs: <<[p1, p2, sd]>>]  swap_distance results               *)
 (***************************************************************************)
 EXTENDS Order1D, TraceIO
@@ -28,7 +29,14 @@ Swap(c) == UNION {LET e == c.pairs[k] IN
                   ELSE IF e.sd # CycleDistance(e.p1, e.p2) THEN {"swap-distance-not-minimal"} ELSE {}
                   : k \in 1..Len(c.pairs)}
 
-Verdict(c) == IF c.kind = "inst" THEN Inst(c) ELSE Swap(c)
+\* many pairwise distinct objects (the complete clauses above are too expensive for TLC beyond ~30 objects):
+\* nothing is merged, the position distances are |i - j|, the horizon is the requested one
+Big(c) ==
+  (IF c.n # c.nexp THEN {"zero-distance-objects-not-merged"} ELSE {})
+  \cup (IF c.dist # [i \in 1..c.n |-> [j \in 1..c.n |-> Abs(i - j)]] THEN {"distance-not-|i-j|"} ELSE {})
+  \cup (IF c.horizon # (IF c.hz < c.n - 1 THEN c.hz ELSE c.n - 1) THEN {"reported-horizon"} ELSE {})
+  \cup (IF \E i \in 1..c.n : c.flows[i][i] # 0 THEN {"flow-on-diagonal"} ELSE {})
+Verdict(c) == IF c.kind = "inst" THEN Inst(c) ELSE IF c.kind = "big" THEN Big(c) ELSE Swap(c)
 Init == tid = 0
 Next == /\ tid < NCases /\ tid' = tid + 1
         /\ PrintT(<<"V", Cases[tid'].id, Verdict(Cases[tid'])>>)
